@@ -42,13 +42,16 @@ const (
 	// writer panics on that line (result store = the restartable service kind: no StateMachine, latched close signal)
 	c18SiteGC = "resultStoreGC" // result store          : logger write in gc() (the service's own goroutine)
 	// v2 (OCR2) plugin: the report coordinator's log poll and the polling observer's registry call
-	c18SiteV2Perform = "v2PerformLogs"
-	c18SiteV2Stale   = "v2StaleLogs"
-	c18SiteV2Source  = "v2ActiveUpkeeps"
+	c18SiteV2Perform  = "v2PerformLogs"
+	c18SiteV2Stale    = "v2StaleLogs"
+	c18SiteV2Source   = "v2ActiveUpkeeps"
+	c18SiteV2CoordEnc = "v2CoordEncoder" // report coordinator: encoder.SplitUpkeepKey while processing a perform log (run loop)
+	c18SiteV2ObsEnc   = "v2ObsEncoder"   // polling observer : encoder.MakeUpkeepKey for the sampled ids (head task loop)
+	c18SiteV2Check    = "v2CheckUpkeep"  // polling observer : runner.CheckUpkeep (head task loop)
 )
 
 var c18Sites = []string{c18SiteLog, c18SiteRecov, c18SiteGetter, c18SiteEvents, c18SitePipeline, c18SitePost, c18SiteGC}
-var c18SitesV2 = []string{c18SiteV2Perform, c18SiteV2Stale, c18SiteV2Source}
+var c18SitesV2 = []string{c18SiteV2Perform, c18SiteV2Stale, c18SiteV2CoordEnc, c18SiteV2Source, c18SiteV2ObsEnc, c18SiteV2Check}
 
 const c18GCLine = "Garbage collecting result store"
 
@@ -276,13 +279,30 @@ type c18Sys struct {
 	subs    func() int // block subscriptions still registered
 	stopEnv func()     // stops the harness's own environment goroutines (head feeder), if any
 	sites   []string   // provider sites whose calls are counted
-	others  []string   // sites of flows that tick on their own (for "other flows keep ticking")
+	// for "other flows keep ticking": one representative site per flow that ticks on its own, and the flow each
+	// panic site belongs to (a flow is not its own "other")
+	flowRep map[string]string
+	flowOf  map[string]string
+}
+
+// othersOf returns the representative sites of the flows other than the one `site` belongs to
+func (s *c18Sys) othersOf(site string) []string {
+	var out []string
+	for flow, rep := range s.flowRep {
+		if flow != s.flowOf[site] {
+			out = append(out, rep)
+		}
+	}
+	sort.Strings(out)
+	return out
 }
 
 func newC18V3Sys(t testing.TB, in c18Input) *c18Sys {
 	n := newC18Node(t, in)
 	return &c18Sys{probe: n.Probe, close: n.Plugin.Close, subs: n.Blocks.NumSubs, stopEnv: func() {}, sites: c18Sites,
-		others: []string{c18SiteLog, c18SiteRecov, c18SiteGetter, c18SiteEvents}}
+		flowRep: map[string]string{"log": c18SiteLog, "recovery": c18SiteRecov, "sampling": c18SiteGetter, "coordinator": c18SiteEvents},
+		flowOf: map[string]string{c18SiteLog: "log", c18SiteRecov: "recovery", c18SiteGetter: "sampling", c18SiteEvents: "coordinator",
+			c18SitePipeline: "pipeline", c18SitePost: "post", c18SiteGC: "resultStore"}}
 }
 
 type c18Node struct {
